@@ -403,7 +403,24 @@ def run(ctx, repo, tier):
         if comp is not None:
             conds = [c for g in comp.generators for c in g.ifs]
             names = {nn.id for c in conds for nn in ast.walk(c) if isinstance(nn, ast.Name)}
-            ctx.check(bool(names & sel_d), "PAIR", "C13.delete.same_set", "the index list is filtered with the same index set that "
+            # names that denote the same SET of indices: x = sorted(y) / list(y) / set(y) / tuple(y) / np.array(y) / np.unique(y)
+            same = {}
+            for n_ in ast.walk(fd.node):
+                if isinstance(n_, ast.Assign) and len(n_.targets) == 1 and isinstance(n_.targets[0], ast.Name) and isinstance(n_.value, ast.Call) \
+                        and src(n_.value.func).split(".")[-1] in ("sorted", "list", "set", "tuple", "frozenset", "array", "asarray", "unique") and \
+                        len(n_.value.args) == 1 and isinstance(n_.value.args[0], ast.Name):
+                    same.setdefault(n_.targets[0].id, set()).add(n_.value.args[0].id)
+                    same.setdefault(n_.value.args[0].id, set()).add(n_.targets[0].id)
+            closure = set(sel_d)
+            grew = True
+            while grew:
+                grew = False
+                for x_ in list(closure):
+                    for y_ in same.get(x_, ()):
+                        if y_ not in closure:
+                            closure.add(y_)
+                            grew = True
+            ctx.check(bool(names & closure), "PAIR", "C13.delete.same_set", "the index list is filtered with the same index set that "
                       "selects the matrix rows/columns", fd.where, src(comp), witness=f"filter uses {sorted(names)}, selectors use {sorted(sel_d)}")
             ctx.check("order-preserving filter" in lk.why and "reversed" not in lk.why, "ORD", "C13.delete.list_order", "the index list keeps its order while "
                       "entries are dropped", fd.where, src(comp), witness=f"kind: {lk.order} ({lk.why})")
@@ -566,13 +583,49 @@ def run(ctx, repo, tier):
                 ctx.instance("LEN")
                 # guarded by a length test of the selection?
                 guarded = False
+                unknown_guard = None
+                from ..astutil import Canon as _Canon
+                cn_ = _Canon(_Canon.single_defs(hf.node.body), protect={sel})
+
+                def empty_truth(test):
+                    """truth value of `test` when the selection is EMPTY (None if the test does not speak about its size)"""
+                    t = cn_.expand(test)
+                    if isinstance(t, ast.UnaryOp) and isinstance(t.op, ast.Not):
+                        r_ = empty_truth(t.operand)
+                        return None if r_ is None else (not r_)
+
+                    def is_size(x):
+                        return (isinstance(x, ast.Call) and isinstance(x.func, ast.Name) and x.func.id == "len" and x.args and src(x.args[0]) == sel) or \
+                            (isinstance(x, ast.Attribute) and x.attr == "size" and src(x.value) == sel) or \
+                            (isinstance(x, ast.Subscript) and isinstance(x.value, ast.Attribute) and x.value.attr == "shape" and src(x.value.value) == sel)
+                    if is_size(t):
+                        return False
+                    if isinstance(t, ast.Compare) and len(t.ops) == 1:
+                        import operator as _o
+                        OPS = {ast.Gt: _o.gt, ast.GtE: _o.ge, ast.Lt: _o.lt, ast.LtE: _o.le, ast.Eq: _o.eq, ast.NotEq: _o.ne}
+                        l_, r_ = t.left, t.comparators[0]
+                        if type(t.ops[0]) in OPS:
+                            if is_size(l_) and isinstance(r_, ast.Constant) and isinstance(r_.value, int):
+                                return OPS[type(t.ops[0])](0, r_.value)
+                            if is_size(r_) and isinstance(l_, ast.Constant) and isinstance(l_.value, int):
+                                return OPS[type(t.ops[0])](l_.value, 0)
+                    return None
                 p_ = getattr(n, "_parent", None)
+                child = n
                 while p_ is not None and p_ is not hf.node:
-                    if isinstance(p_, ast.If) and sel in {x.id for x in ast.walk(p_.test) if isinstance(x, ast.Name)} and \
-                            ("len(" in src(p_.test) or ".size" in src(p_.test)):
-                        guarded = True
+                    if isinstance(p_, ast.If):
+                        in_body = any(child is x or any(child is y for y in ast.walk(x)) for x in p_.body)
+                        tv = empty_truth(p_.test)
+                        if tv is not None and tv is (not in_body):
+                            guarded = True          # this branch is not taken when the selection is empty
+                        elif tv is None and sel in {x.id for x in ast.walk(cn_.expand(p_.test)) if isinstance(x, ast.Name)}:
+                            unknown_guard = p_.test
+                    child = p_
                     p_ = getattr(p_, "_parent", None)
-                if guarded:
+                if not guarded and unknown_guard is not None:
+                    ctx.inconclusive("LEN", f"C13.helper.{hname}.reduction", "a condition on the selection guards the reduction but is not a "
+                                     "recognised emptiness test", hf.where, witness=src(unknown_guard)[:100])
+                elif guarded:
                     ctx.ok("LEN", f"C13.helper.{hname}.reduction", "reduction over a selection is guarded by a length test", hf.where, src(n)[:100])
                 else:
                     ctx.violate("LEN", f"C13.helper.{hname}.reduction", "a minimum/maximum is taken over a selection that is empty when no cell "
